@@ -83,7 +83,16 @@ func genID(r *vm.Rand) int32 {
 
 var thresholds = []int{-1, 0, 1, 2, 63, 64, 256, 1 << 15, 1 << 21}
 
+// forced by run for the first big sequences: id+payload of exactly 2 MiB at a given threshold
+var (
+	forceExact     bool
+	forceThreshold int
+)
+
 func genThreshold(r *vm.Rand, big bool) int {
+	if big && forceExact {
+		return forceThreshold
+	}
 	if r.Intn(4) == 0 {
 		return r.Intn(5000)
 	}
@@ -112,10 +121,13 @@ func genPayload(r *vm.Rand, n int) []byte {
 }
 
 func genSize(r *vm.Rand, threshold int, idLen int, big bool) int {
+	if big && forceExact {
+		return 1<<21 - idLen
+	}
 	n := genSize0(r, threshold, idLen, big)
-	// id+payload stays clear of the 2 MiB protocol maximum
-	if n > 1<<21-5-idLen {
-		n = 1<<21 - 5 - idLen - r.Intn(3)
+	// id+payload is at most the 2 MiB protocol maximum
+	if n > 1<<21-idLen {
+		n = 1<<21 - idLen - r.Intn(3)
 	}
 	return n
 }
@@ -136,7 +148,8 @@ func genSize0(r *vm.Rand, threshold int, idLen int, big bool) int {
 		return max(0, b-idLen+r.Intn(5)-2)
 	case 5:
 		if big {
-			return []int{1<<21 - 5 - idLen, 1<<21 - 6 - idLen, 1 << 20, 1<<20 + 1}[r.Intn(4)] - r.Intn(2) // id+payload stays clear of the 2 MiB maximum
+			// up to the maximum itself (id+payload = 2^21, whose length prefix takes a fourth byte) and around 2^21-1
+			return []int{1<<21 - idLen, 1<<21 - idLen, 1<<21 - 1 - idLen, 1<<21 - 5 - idLen, 1 << 20, 1<<20 + 1}[r.Intn(6)] - r.Intn(2)
 		}
 		return r.Intn(70000)
 	case 6:
@@ -279,6 +292,15 @@ func checkSequence(c *vm.Ctx, r *vm.Rand, spy *poolSpy, big bool) {
 		return
 	}
 	c.Cover("sequence.ok")
+	for _, p := range pkts {
+		if len(refwire.EncVarInt(p.id))+len(p.payload) == 1<<21 {
+			if threshold < 0 {
+				c.Cover("payload.exactly-2MiB.plain")
+			} else {
+				c.Cover("payload.exactly-2MiB.compression-layer")
+			}
+		}
+	}
 	c.Sample("sequence", wit(-1)())
 	if k >= 20 {
 		c.Cover("sequence.long")
@@ -344,7 +366,7 @@ func checkRejection(c *vm.Ctx, r *vm.Rand, withBig bool) {
 		}
 		cases = append(cases, rej{"plain.negative-payload-size", -1, refwire.RawFrame(total, id, body)})
 	}
-	for _, total := range []int32{1<<21 + 6 + int32(len(id)), 1 << 22, 1<<31 - 1} {
+	for _, total := range []int32{1<<21 + 1, 1<<21 + 6 + int32(len(id)), 1 << 22, 1<<31 - 1} {
 		cases = append(cases, rej{"plain.above-maximum", -1, refwire.RawFrame(total, id, body)})
 	}
 	// compression layer
@@ -359,7 +381,7 @@ func checkRejection(c *vm.Ctx, r *vm.Rand, withBig bool) {
 		z := zbody(8)
 		cases = append(cases, rej{"zlib.negative-data-length", th, refwire.RawFrame(int32(len(vi(dl))+len(z)), vi(dl), z)})
 	}
-	for _, dl := range []int32{1<<21 + 6, 1 << 22, 1<<31 - 1} {
+	for _, dl := range []int32{1<<21 + 1, 1<<21 + 6, 1 << 22, 1<<31 - 1} {
 		z := zbody(8)
 		cases = append(cases, rej{"zlib.above-maximum", th, refwire.RawFrame(int32(len(vi(dl))+len(z)), vi(dl), z)})
 	}
@@ -382,6 +404,13 @@ func checkRejection(c *vm.Ctx, r *vm.Rand, withBig bool) {
 		cases = append(cases, rej{"plain.complete-frame-above-maximum", -1, refwire.RawFrame(int32(len(id)+len(big)), id, big)})
 		inner := append(append([]byte{0}, id...), big...) // data length 0, then the plain packet
 		cases = append(cases, rej{"zlib.uncompressed-form-above-maximum", th, refwire.RawFrame(int32(len(inner)), nil, inner)})
+		if over <= 100 {
+			// and a genuine compressed frame: the data length is true, the stream inflates to exactly that many
+			// bytes - only the maximum speaks against it
+			z := zbody(1<<21 + over)
+			dl := vi(int32(1<<21 + over))
+			cases = append(cases, rej{"zlib.genuine-stream-above-maximum", th, refwire.RawFrame(int32(len(dl)+len(z)), dl, z)})
+		}
 	}
 	for _, rc := range cases {
 		in := append(append([]byte{}, rc.frame...), r.Bytes(64)...)
@@ -434,6 +463,8 @@ func run(c *vm.Ctx) {
 		}
 	}
 	for i := 0; i < c.Scale(24, 200); i++ {
+		forceExact = i < 6 && c.Shard == 0
+		forceThreshold = []int{-1, 0, 256, -1, 64, 1 << 21}[i%6]
 		checkSequence(c, r, spy, true)
 		c.Cover("payload.near-2MiB")
 		spy.reset()
